@@ -59,6 +59,7 @@ fn ask(stdin: &mut ChildStdin, stdout: &mut BufReader<ChildStdout>, cmd: &Value)
 }
 
 pub fn client_main() {
+    die_with_parent();
     verif::init();
     unsafe {
         libc::signal(libc::SIGPIPE, libc::SIG_DFL);
@@ -271,6 +272,24 @@ fn behaviour(b: &Value, mode: &str, all_names: &mut HashSet<String>) -> Value {
                     let (p, d) = fs_state(&s.name);
                     if p || d {
                         return fail(n, op, format!("after accept returned the socket path exists={} its directory exists={}", p, d));
+                    }
+                }
+            },
+            "accept.fail" => {
+                // the client connected and left without a word: accept must fail (not hang, not panic)
+                let s = srvs.get_mut(&i).unwrap();
+                let server = s.server.take().unwrap();
+                match with_watchdog(10_000, move || server.accept().map(|_| ()).map_err(|e| format!("{:?}", e))) {
+                    Ok(Ok(Err(_))) => {},
+                    Ok(Ok(Ok(()))) => return fail(n, op, "accept returned a message although the client never sent one".into()),
+                    Ok(Err(_)) => return fail(n, op, "accept panicked".into()),
+                    Err(()) => return fail(n, op, "accept did not return although the client had connected and gone".into()),
+                }
+                #[cfg(not(feature = "inprocess"))]
+                {
+                    let (p, d) = fs_state(&s.name);
+                    if p || d {
+                        return fail(n, op, format!("after the failed accept the socket path exists={} its directory exists={}", p, d));
                     }
                 }
             },
